@@ -18,7 +18,7 @@ Definition err_str (e : error) : string :=
   match e with
   | EVersionTooLow => "MinecraftVersionTooLow"
   | ESyntax => "JMCSyntaxException"
-  | EValueError => "ValueError"
+  | EValueError => "JMCValueError"        (* Hardcode.switch with count < begin_at (the only source in compile_functions_r) *)
   | EFuel => "<model out of fuel>"
   end.
 
